@@ -15,6 +15,9 @@ SecOf(e, i) == LET J == {j \in 1..Len(e.cfgIdx) : e.cfgIdx[j] = i} IN
                IF J = {} THEN "absent" ELSE LET s == e.cfgSec[CHOOSE j \in J : TRUE] IN IF s = "default" THEN "absent" ELSE s
 ClsOf(e, i) == LET J == {j \in 1..Len(e.cfgIdx) : e.cfgIdx[j] = i} IN IF J = {} THEN "" ELSE e.cfgCls[CHOOSE j \in J : TRUE]
 Present(e) == {i \in 1..Len(e.st) : e.st[i] # -9}
+\* what is remembered of a verdict: status and details digest - but only the status under a section that cannot be applied (the
+\* text of a configuration error names the offending key, and two ill-typed sections need not offend in the same key)
+Obs(e, i) == <<e.st[i], IF SecOf(e, i) \in BadSections THEN 0 ELSE e.dg[i]>>
 LintReasons(e) ==
   LET sel == ToSet(e.sel) IN
    {<<i, "result-for-unselected-lint", "">> : i \in Present(e) \ sel} \cup
@@ -25,7 +28,10 @@ LintReasons(e) ==
                   ~(IF InScope(e.kind, MetaOf(e.kind).src[j], [ekus |-> ToSet(e.ekus), unk |-> e.unk, pols |-> ToSet(e.pols), email |-> e.email])
                       THEN e.st[j] = Fatal /\ ClsOf(e, j) = "cfgmsg" ELSE e.st[j] = NA)}} \cup
    {<<i, IF memo[<<i, SecOf(e, i)>>][1] # e.st[i] THEN "status-differs" ELSE "details-differ", tags[<<i, SecOf(e, i)>>]>> :
-        i \in {j \in Present(e) : <<j, SecOf(e, j)>> \in DOMAIN memo /\ memo[<<j, SecOf(e, j)>>] # <<e.st[j], e.dg[j]>>}} \cup
+        i \in {j \in Present(e) : <<j, SecOf(e, j)>> \in DOMAIN memo /\ memo[<<j, SecOf(e, j)>>] # Obs(e, j)}} \cup
+   \* a section that CAN be applied never makes the lint fail internally (the framework's report of a recovered panic)
+   {<<i, "recovered-panic-under-an-applicable-section", SecOf(e, i)>> :
+        i \in {j \in Present(e) : SecOf(e, j) \notin BadSections /\ e.st[j] = Fatal /\ ClsOf(e, j) = "panicmsg"}} \cup
    (IF e.escaped THEN {<<0, "panic-escaped", "">>} ELSE {}) \cup
    (IF ~e.escaped /\ ~(/\ e.flags[1] <=> \E i \in Present(e) : e.st[i] = Notice
                        /\ e.flags[2] <=> \E i \in Present(e) : e.st[i] = Warn
@@ -43,7 +49,7 @@ Step == /\ l <= Len(Trace)
             /\ CASE e.ev = "Reset" -> memo' = <<>> /\ tags' = <<>>
                  [] e.ev = "Lint" ->
                       LET keys == {<<i, SecOf(e, i)>> : i \in Present(e)} IN
-                        /\ memo' = [k \in DOMAIN memo \cup keys |-> IF k \in DOMAIN memo THEN memo[k] ELSE <<e.st[k[1]], e.dg[k[1]]>>]
+                        /\ memo' = [k \in DOMAIN memo \cup keys |-> IF k \in DOMAIN memo THEN memo[k] ELSE Obs(e, k[1])]
                         /\ tags' = [k \in DOMAIN tags \cup keys |-> IF k \in DOMAIN tags THEN tags[k] ELSE e.tag]
                  [] OTHER -> UNCHANGED <<memo, tags>>
         /\ l' = l + 1
